@@ -140,10 +140,11 @@ def run(ck):
         pos = fu.last_l(v) - 1
         start, tag, job, inj = [x for x in index if x[0] <= pos][-1]
         e = events[pos - 1]
-        if v.kind == "invariant" and v.name in ("CrashSafeT", "PropOK", "ExitOK", "BlameOK"):
+        if v.kind == "invariant" and v.name in ("CrashSafeT", "PropOK", "ExitOK", "BlameOK", "AffectedOK"):
             what = {"CrashSafeT": "the system calls issued so far leave partial / foreign bytes (or lose an acknowledged object) under an object name: a crash here exposes them",
                     "PropOK": "after the end / kill of the writer the reopened tree returned partial or foreign bytes, lost an acknowledged object, or listed something that is not a stored object",
-                    "ExitOK": "the writer process did not end normally", "BlameOK": "an operation failed although no file-system call failed"}[v.name]
+                    "ExitOK": "the writer process did not end normally", "BlameOK": "an operation failed although no file-system call failed",
+                    "AffectedOK": "an operation reported success although one of its calls failed"}[v.name]
             ck.violation("%s (run %s, inject %s, event %d: %s)" % (what, tag, inj, pos - start + 1, json.dumps(e)[:700]),
                          {"tag": tag, "job": job, "inject": inj, "invariant": v.name, "event": e,
                           "run_events": events[start - 1:pos]})
